@@ -82,7 +82,7 @@ def validate(case):
             raise C.CaseInvalid("clock")
         if op[0] in ("send", "partial", "reads", "stalls", "closes", "connect") and (len(op) < 2 or not isinstance(op[1], int) or op[1] < 0):
             raise C.CaseInvalid("index")
-        if op[0] == "send" and (len(op) != 3 or op[2] not in (True, False, 2)):
+        if op[0] == "send" and (len(op) != 3 or op[2] not in (True, False, 2, 3, 4)):
             raise C.CaseInvalid("send")
 
 
@@ -199,10 +199,15 @@ def run_history(case):
                     continue
                 if k == "send":
                     m["nreq"] += 1
-                    path = "/c%d/%s%d" % (conns.index(m), "sblock" if op[2] == 2 else ("block" if op[2] else "r"), m["nreq"])
+                    path = "/c%d/%s%d" % (conns.index(m), "sblock" if op[2] == 2 else ("block" if op[2] is True else "r"), m["nreq"])
                     if m.get("half"):
                         s.inq.append(s2b(m["half"]))
                         m["half"] = None
+                    elif op[2] == 3:
+                        # the last request of the connection: the response announces closing (the channel waits for its output to drain)
+                        s.inq.append(s2b("GET %s HTTP/1.1\r\nHost: h\r\nConnection: close\r\n\r\n" % path))
+                    elif op[2] == 4:
+                        s.inq.append(s2b("GET %s HTTP/1.0\r\nHost: h\r\n\r\n" % path))
                     else:
                         s.inq.append(s2b("GET %s HTTP/1.1\r\nHost: h\r\n\r\n" % path))
                     if m["accepted"]:
@@ -283,8 +288,8 @@ def ops_strategy():
     return st.lists(st.one_of(
         st.tuples(st.just("connect"), st.integers(0, 1)).map(list),
         st.tuples(st.just("connect"), st.integers(0, 1)).map(list),
-        st.tuples(st.just("send"), idx, st.sampled_from([True, False, False, 2])).map(list),
-        st.tuples(st.just("send"), idx, st.sampled_from([True, False, False, 2])).map(list),
+        st.tuples(st.just("send"), idx, st.sampled_from([True, False, False, 2, 3, 4])).map(list),
+        st.tuples(st.just("send"), idx, st.sampled_from([True, False, False, 2, 3, 4])).map(list),
         st.tuples(st.just("partial"), idx).map(list),
         st.tuples(st.just("reads"), idx).map(list),
         st.tuples(st.just("stalls"), idx).map(list),
@@ -362,6 +367,17 @@ FIXED = [
     # a streaming application whose client has stopped reading: busy, must never be reaped
     {"cfg": {"connection_limit": 100, "channel_timeout": 2, "cleanup_interval": 1}, "capacity": 60,
      "ops": [["connect", 0], ["stalls", 0], ["send", 0, 2], ["clock", 5], ["clock", 5], ["clock", 200], ["finish"], ["reads", 0], ["clock", 1]]},
+    # an older connection whose client stopped reading (output pending) next to younger ones, idle or active: the older one goes, only it
+    {"cfg": {"connection_limit": 100, "channel_timeout": 2, "cleanup_interval": 1}, "capacity": 60,
+     "ops": [["connect", 0], ["connect", 0], ["connect", 0], ["stalls", 0], ["send", 0, False], ["send", 1, False], ["send", 2, True],
+             ["clock", 1], ["send", 1, False], ["clock", 1], ["send", 1, False], ["clock", 1], ["send", 1, False], ["clock", 3], ["send", 1, False], ["clock", 3], ["finish"], ["clock", 1]]},
+    {"cfg": {"connection_limit": 100, "channel_timeout": 2, "cleanup_interval": 1, "threads": 2}, "capacity": 60,
+     "ops": [["connect", 0], ["connect", 0], ["stalls", 0], ["stalls", 1], ["send", 0, False], ["send", 1, 2], ["clock", 3], ["clock", 3], ["clock", 3], ["finish"], ["reads", 1], ["clock", 1]]},
+    # the unread response is the last one of its connection (Connection: close / HTTP/1.0): the stalled client is reaped all the same
+    {"cfg": {"connection_limit": 100, "channel_timeout": 2, "cleanup_interval": 1}, "capacity": 60,
+     "ops": [["connect", 0], ["stalls", 0], ["send", 0, 3], ["clock", 3], ["clock", 3], ["clock", 3]]},
+    {"cfg": {"connection_limit": 100, "channel_timeout": 2, "cleanup_interval": 1}, "capacity": 60,
+     "ops": [["connect", 0], ["connect", 0], ["stalls", 1], ["send", 1, 4], ["send", 0, False], ["clock", 3], ["clock", 3], ["clock", 3]]},
     # idle connect-only and half-sent request
     {"cfg": {"connection_limit": 100, "channel_timeout": 2, "cleanup_interval": 1}, "ops": [["connect", 0], ["connect", 0], ["partial", 1], ["clock", 10], ["clock", 10]]},
 ]
